@@ -68,7 +68,10 @@ CLAIM = dict(
          "copy-then-mutate productions: every filter/constructor that promises a new container (|list, |sort, |unique, "
          "|reverse, |batch, |slice, |map, |select, |dictsort, |items, dict(), x[:], namespace(), .copy()) over a shared list/dict "
          "(module export, environment global, template global, shared data), the result mutated in place between await "
-         "points, copy and original printed, shared inputs compared afterwards; attribute "
+         "points, copy and original printed, shared inputs compared afterwards; pass_context / pass_eval_context / "
+         "pass_environment callables reading names after plain/block/filter sets, with, loop targets in blocks, scoped blocks, "
+         "loops, child blocks and macros, several renders of the same template; generated modules checked for module-level "
+         "state and per-call _block_vars/_loop_vars (theorem local_vars_are_per_call over compiler.py); attribute "
          "snapshots of Environment/Template/loader before and after.",
     note="Partial: the model's shared-state list (= `_module` + template cache; lexer cache and spontaneous environments "
          "are compile-time) is checked by the source inventory and by snapshots on the explored runs, not proved complete; "
@@ -842,6 +845,182 @@ def l_copy_mutate(ctx, res, cov, jinja2):
     return schedules, len(distinct)
 
 
+# --------------------------------------------------------------------------------------------------
+# L-e2e (context-aware callables): what a pass_context function sees is the calling render's own names
+# --------------------------------------------------------------------------------------------------
+
+def ctx_callables(jinja2):
+    @jinja2.pass_context
+    def cget(c, name):
+        return c.get(name, "-")
+
+    @jinja2.pass_context
+    def cres(c, name):
+        v = c.resolve(name)
+        return "-" if isinstance(v, jinja2.Undefined) else v
+
+    @jinja2.pass_context
+    def chas(c, name):
+        return name in c
+
+    @jinja2.pass_context
+    async def acget(c, name):
+        await GATE
+        return c.get(name, "-")
+
+    @jinja2.pass_eval_context
+    def eauto(e, x="_"):
+        return f"{int(bool(e.autoescape))}{x}"
+
+    @jinja2.pass_environment
+    def envname(env, x="_"):
+        return f"{type(env).__name__[:3]}{x}"
+    return dict(cget=cget, cres=cres, chas=chas, acget=acget, eauto=eauto, envname=envname)
+
+
+READS = ["{{ cget('N') }}", "{{ cres('N') }}", "{{ chas('N') }}", "{{ acget('N') }}", "{{ cget('N') }}{{ eauto(who) }}{{ envname(who) }}"]
+
+# (name, how the name gets its value, does it sit in a block/loop) — W is the task's own value
+ASSIGNS = [
+    ("blockset", "{% set N %}v{{ who }}{% endset %}"),
+    ("plainset", "{% set N = 'v' ~ who %}"),
+    ("both", "{% set N %}v{{ who }}{% endset %}{% set M = who %}"),
+    ("filterset", "{% set N | upper %}v{{ who }}{% endset %}"),
+]
+
+
+def pc_templates(rng):
+    """one template set: every assignment form x every place, reads by context-aware callables after an await"""
+    out = {}
+    n = 0
+    for aname, assign in ASSIGNS:
+        for place in ("top", "block", "scopedblock", "loop", "blockinloop", "with", "childblock", "macro"):
+            read = rng.choice(READS).replace("N", "x")
+            a = assign.replace("N", "x").replace("M", "y")
+            core_ = a + "{{ aw(1) }}" + read + "{{ aw(2) }}" + rng.choice(READS).replace("N", "x")
+            if place == "top":
+                src = core_
+            elif place == "block":
+                src = "<{% block b %}" + core_ + "{% endblock %}>"
+            elif place == "scopedblock":
+                src = "{% for i in items %}{% block b scoped %}" + core_ + "{{ cget('i') }}{% endblock %}{% endfor %}"
+            elif place == "loop":
+                src = "{% for i in items %}" + core_ + "{{ cget('i') }}{% endfor %}"
+            elif place == "blockinloop":
+                src = "{% block b %}{% for i in items %}" + core_ + "{{ cget('i') }}{% endfor %}{{ cget('x') }}{% endblock %}"
+            elif place == "with":
+                src = "{% block b %}{% with w = who %}" + core_ + "{{ cget('w') }}{% endwith %}{% endblock %}"
+            elif place == "childblock":
+                out[f"base{n}"] = "[{% block b %}B{{ aw(1) }}{{ cget('x') }}{% endblock %}|{% block c %}" + core_ + "{% endblock %}]"
+                src = '{%% extends "base%d" %%}{%% block b %%}%s{{ super() }}{%% endblock %%}' % (n, core_)
+            else:
+                src = "{% macro m() %}" + core_ + "{% endmacro %}{% block b %}{{ m() }}{{ cget('x') }}{% endblock %}"
+            out[f"t{n}_{aname}_{place}"] = src
+            n += 1
+    return out
+
+
+def module_level_check(jinja2, env, templates, res):
+    """per-program tie: in the code generated for each template the only module-level statements are the runtime import,
+    `name`, function definitions, `blocks = {name: function}` and `debug_info`; every block function that uses `_block_vars`
+    assigns it itself, every loop body that uses `_loop_vars` assigns it itself"""
+    import ast
+    bad = 0
+    for name, src in templates.items():
+        mod = ast.parse(env.compile(src, name=name, raw=True))
+        for st in mod.body:
+            ok = isinstance(st, (ast.ImportFrom, ast.Import, ast.FunctionDef, ast.AsyncFunctionDef))
+            if isinstance(st, ast.Assign) and len(st.targets) == 1 and isinstance(st.targets[0], ast.Name):
+                tgt = st.targets[0].id
+                ok = (tgt in ("name", "debug_info") and isinstance(st.value, ast.Constant)) or (
+                    tgt == "blocks" and isinstance(st.value, ast.Dict) and all(isinstance(v, ast.Name) for v in st.value.values))
+            if not ok:
+                bad += 1
+                res.violate("C37:generated-module:shared-mutable", f"the module generated for {src!r} has the module-level statement "
+                            f"`{ast.unparse(st)[:60]}`: state there is shared by every render of the template",
+                            {"template": src, "statement": ast.unparse(st)}, no_input=True)
+        for fn in ast.walk(mod):
+            if isinstance(fn, (ast.FunctionDef, ast.AsyncFunctionDef)):
+                own = [n for n in fn.body if isinstance(n, ast.Assign) and any(isinstance(t, ast.Name) and t.id == "_block_vars"
+                                                                                for t in n.targets)]
+                uses = any(isinstance(n, ast.Name) and n.id == "_block_vars" and isinstance(n.ctx, ast.Load) for n in ast.walk(fn))
+                if fn.name.startswith("block_") and uses and not own:
+                    bad += 1
+                    res.violate("C37:generated-module:block-vars-not-per-call", f"{fn.name} generated for {src!r} reads `_block_vars` "
+                                f"without creating it in the call", {"template": src, "function": fn.name}, no_input=True)
+            if isinstance(fn, (ast.For, ast.AsyncFor)):
+                uses = any(isinstance(n, ast.Name) and n.id == "_loop_vars" for st in fn.body for n in ast.walk(st))
+                own = any(isinstance(st, ast.Assign) and ast.unparse(st) == "_loop_vars = {}" for st in fn.body)
+                if uses and not own:
+                    bad += 1
+                    res.violate("C37:generated-module:loop-vars-not-per-iteration", f"a loop generated for {src!r} uses `_loop_vars` "
+                                f"without creating it in the body (once per iteration)", {"template": src}, no_input=True)
+    return bad
+
+
+def l_pass_context(ctx, res, cov, jinja2):
+    rng = ctx.rng("pass-context")
+    callables = ctx_callables(jinja2)
+    schedules = 0
+    distinct = set()
+    diffs = 0
+    checked_modules = 0
+    bad_modules = 0
+    places = {}
+    for round_ in range(ctx.pick(1, 6)):
+        templates = pc_templates(rng)
+
+        def build(templates=templates):
+            env = make_env(jinja2, templates)
+            env.globals.update(callables)
+            return env
+        bad_modules += module_level_check(jinja2, build(), templates, res)
+        checked_modules += len(templates)
+        mains = [k for k in templates if k.startswith("t")]
+        for name in mains:
+            ntasks = 3 if rng.random() < 0.3 else 2
+            solo = []
+            for i in range(ntasks):
+                r, _, _ = drive([build().get_template(name).render_async(**task_data(i))], lambda s, a: 0)
+                solo.append(r[0])
+            if any(r[0] != "ok" for r in solo):
+                raise core.HarnessError(f"pass_context scenario does not render alone: {solo[0]} {templates[name]!r}")
+            places[name.split("_", 1)[1]] = places.get(name.split("_", 1)[1], 0) + 1
+
+            def run_one(chooser_factory, name=name, ntasks=ntasks):
+                env = build()
+                positions = []
+                results, trace, options = drive([env.get_template(name).render_async(**task_data(i)) for i in range(ntasks)],
+                                                chooser_factory(positions))
+                return (results, trace), positions, options
+
+            def check(payload, how, name=name, ntasks=ntasks, solo=solo, templates=templates):
+                nonlocal schedules, diffs
+                results, trace = payload
+                schedules += 1
+                distinct.add((templates[name], ntasks, tuple(trace)))
+                for i, (r, s0) in enumerate(zip(results, solo)):
+                    if r != s0:
+                        diffs += 1
+                        res.violate("C37:concurrent-differs-from-alone",
+                                    f"task {i} (who={task_data(i)['who']}) rendered {r!r} next to {ntasks - 1} other render(s) of the same "
+                                    f"template ({how} schedule {trace}) but {s0!r} alone: a context-aware callable (pass_context) saw "
+                                    f"another render's value; template {templates[name]!r}",
+                                    {"layer": "pass-context", "templates": templates, "tasks": [name] * ntasks, "schedule": trace,
+                                     "task": i, "concurrent": r, "alone": s0})
+            for payload in dfs_schedules(lambda prefix: run_one(lambda pos: chooser_from_prefix(prefix, pos)), ctx.pick(10, 40)):
+                check(payload, "dfs")
+            for _ in range(ctx.pick(2, 8)):
+                payload, _, _ = run_one(lambda pos: chooser_random(rng, pos))
+                check(payload, "random")
+            payload, _, _ = run_one(lambda pos: (lambda step, active: (pos.append(step % len(active)) or step % len(active))))
+            check(payload, "round-robin")
+    cov["pass_context"] = {"schedules": schedules, "distinct_schedules": len(distinct), "differences": diffs,
+                           "generated_modules_checked": checked_modules, "generated_modules_with_shared_state": bad_modules,
+                           "assignment_x_place": places}
+    return schedules, len(distinct)
+
+
 def run(ctx, res):
     jinja2 = core.import_jinja()
     cov = {}
@@ -849,7 +1028,8 @@ def run(ctx, res):
     e2, d2 = l_e2e(ctx, res, cov, jinja2)
     e3, d3 = l_autoescape(ctx, res, cov, jinja2)
     e4, d4 = l_copy_mutate(ctx, res, cov, jinja2)
-    e2, d2 = e2 + e3 + e4, d2 + d3 + d4
+    e5, d5 = l_pass_context(ctx, res, cov, jinja2)
+    e2, d2 = e2 + e3 + e4 + e5, d2 + d3 + d4 + d5
     res.coverage.update({
         "evaluations": e1 + e2,
         "distinct_nontrivial": d1 + d2,
@@ -874,7 +1054,9 @@ def replay(ctx, case):
     names, trace = c["tasks"], list(c["schedule"])
     mode = c.get("autoescape")
     data = (lambda i: ESC_DATA[i]) if c.get("data") == "ESC_DATA" else task_data
+    extra = ctx_callables(jinja2) if c.get("layer") == "pass-context" else {}
     env = make_env(jinja2, c["templates"], mode)
+    env.globals.update(extra)
     it = iter(trace)
 
     def choose(step, active):
@@ -884,6 +1066,7 @@ def replay(ctx, case):
     solo = []
     for i, nm in enumerate(names):
         e = make_env(jinja2, c["templates"], mode)
+        e.globals.update(extra)
         solo.append(drive([e.get_template(nm).render_async(**data(i))], lambda s, a: 0)[0][0])
     return {"schedule": tr, "concurrent": results, "alone": solo}
 
